@@ -339,13 +339,20 @@ def build_cfg(case):
                                         'components': {'agent_executing':
                                                        {'count': 1}}}
 
+    nodes, cores, gpus = req, req * C, req * G
+    if case.get('by_cores'):
+        # the pilot is sized by cores: the number of nodes is derived from
+        # the usable cores per node
+        assert cpn
+        nodes, cores, gpus = 0, req * (cpn - len(case['bc'])), 0
+
     cfg = ru.Config(from_dict={
         'pid'              : 'pilot.0000',
         'resource'         : 'verif.c18',
         'reg_addr'         : 'mem://reg',
-        'nodes'            : req,
-        'cores'            : req * C,
-        'gpus'             : req * G,
+        'nodes'            : nodes,
+        'cores'            : cores,
+        'gpus'             : gpus,
         'backup_nodes'     : case['backup'],
         'cores_per_node'   : cpn,
         'gpus_per_node'    : gpn,
@@ -1009,6 +1016,31 @@ def gen_cases(quick):
                 for pv in pvs:
                     for fv in fvs:
                         cases.append(dict(pv, rm=rm, part='B', **hw, **fv))
+
+    # C: blocked cores / GPUs x (backup node moving in for an unreachable one,
+    #    pilot sized by cores instead of nodes)
+    for rm in RMS:
+        for n in (2, 3):
+            for hw in HW_SMALL[1:]:
+                pvs = [pv for pv in parse_variants(rm, n, hw,
+                                                   primary_only=True)
+                       if pv['cpn_cfg']][:1]
+                for pv in pvs:
+                    for first in 'UT':
+                        if rm == 'FORK':
+                            continue
+                        cases.append(dict(pv, rm=rm, part='C', **hw,
+                                          req=n - 1, backup=1,
+                                          reach=first + 'R' * (n - 1),
+                                          agents='0', services=False))
+                    for req in range(1, n + 1):
+                        if rm == 'FORK':
+                            # Fork makes up its allocation from the request:
+                            # there is no given node list to compare with
+                            continue
+                        cases.append(dict(pv, rm=rm, part='C', **hw, req=req,
+                                          backup=0, reach='R' * n, agents='0',
+                                          services=False, by_cores=True))
 
     return cases
 
